@@ -377,7 +377,9 @@ func (e *env) judge(sc scenario, caseID string, res execResult, sched []int) boo
 	return true
 }
 
-func (e *env) exploreDFS(sc scenario, caseID string, maxPreempt int, maxRuns int) {
+// exploreDFS enumerates schedules depth first. The tree is split between nShards cases (worker processes): every shard
+// executes the root schedule and keeps the sub-trees of the root's alternatives whose index is congruent to its number.
+func (e *env) exploreDFS(sc scenario, caseID string, maxPreempt int, maxRuns int, shard, nShards int) {
 	type node struct{ prefix []int }
 	stack := []node{{}}
 	runs := 0
@@ -424,10 +426,21 @@ func (e *env) exploreDFS(sc scenario, caseID string, maxPreempt int, maxRuns int
 				stack = append(stack, node{prefix: np})
 			}
 		}
+		if runs == 1 && nShards > 1 {
+			kept := stack[:0]
+			for i, c := range stack {
+				if i%nShards == shard {
+					kept = append(kept, c)
+				}
+			}
+			stack = kept
+		}
 	}
 	e.r.Count("dfs_runs_"+sc.Name, int64(runs))
 	if len(stack) == 0 {
-		e.r.Count("scenarios_fully_enumerated_within_bound", 1)
+		e.r.Count("dfs_shards_fully_enumerated_within_bound", 1)
+	} else {
+		e.r.Count("dfs_shards_cut_off_by_the_run_budget", 1)
 	}
 }
 
@@ -498,15 +511,19 @@ func body(r *ev.Run) {
 	// (2)+(3)
 	for si, sc := range scenarios() {
 		sc := sc
-		caseID := "sched/" + sc.Name
-		r.Do(caseID, func() {
-			if len(sc.Threads) == 2 {
-				e.exploreDFS(sc, caseID, r.Pick(2, 6), r.Pick(400, 60000))
-			} else {
-				e.exploreDFS(sc, caseID, 1, r.Pick(150, 3000))
-				e.exploreRandom(sc, caseID, r.Pick(150, 20000))
-			}
-		})
+		nShards := r.Pick(2, 8)
+		for sh := 0; sh < nShards; sh++ {
+			sh := sh
+			caseID := fmt.Sprintf("sched/%s/shard%d", sc.Name, sh)
+			r.Do(caseID, func() {
+				if len(sc.Threads) == 2 {
+					e.exploreDFS(sc, caseID, r.Pick(2, 6), r.Pick(400, 60000)/nShards, sh, nShards)
+				} else {
+					e.exploreDFS(sc, caseID, 1, r.Pick(150, 3000)/nShards, sh, nShards)
+					e.exploreRandom(sc, caseID, r.Pick(150, 20000)/nShards)
+				}
+			})
+		}
 		_ = si
 	}
 	// (4) free-running reorganisation storms with tip readers
